@@ -41,7 +41,7 @@ var profiles = map[string]Profile{
 	// PruneAlgo.prune_forest) under small flush thresholds
 	"C04w": {Name: "C04w", MinOps: 15, MaxOps: 60, Keys: 6, EmptyVals: true, ObsEvery: 4, WPrune: true,
 		Initials: []int64{-1, -1, 1, 7},
-		W:        map[string]int{"set": 25, "rm": 14, "save": 25, "rollback": 3, "reopen": 6, "prune": 14, "lvfo": 6, "rekeychain": 5, "pintest": 3}},
+		W:        map[string]int{"set": 25, "rm": 14, "save": 25, "rollback": 3, "reopen": 6, "prune": 14, "lvfo": 6, "rekeychain": 5, "pintest": 3, "faultprune": 4}},
 	// C07: the fast index against the tree walk, each reopen chooses index on/off
 	"C07": {Name: "C07", MinOps: 15, MaxOps: 60, Keys: 8, EmptyVals: true, ObsEvery: 3, ToggleFast: true,
 		Initials: []int64{-1, -1, 1, 7},
